@@ -240,7 +240,7 @@ class C08:
                 h.to_json(path)
                 q = load_json(path)
                 out["loaded"] = pub(q)
-            if case["kind"] == "json1":
+            if case["kind"] in ("json1", "jsonnd"):
                 d = h.to_dict()
                 out["dict"] = d
         return {"outs": out, "log": log}
@@ -251,6 +251,10 @@ class C08:
             return None
         if case["kind"] == "version":
             return {"kind": "version", "current": parse_version(case["current"]), "required": [parse_version(v) for v in case["required"]]}
+        if case["kind"] == "jsonnd":
+            if case["init"].get("dtype") == "float16":
+                return None
+            return {"kind": "histn", "ops": [case["init"], {"op": "roundtrip", "h": 0, "out": 1}]}
         if case["kind"] != "json1":
             return None
         s = case["spec"]
@@ -272,6 +276,8 @@ class C08:
         if case["kind"] == "version":
             return [f"version {v}: model refused={m} impl refused={i}" for v, m, i in zip(case["required"], model_ok, io["outs"]) if m != i]
         o = io["outs"]
+        if case["kind"] == "jsonnd":
+            return self.diff_nd(case, model_ok, o)
         doc = model_ok[1]["ret"]
         d = []
         impl = o["dict"]
@@ -319,6 +325,77 @@ class C08:
             d.append(f"parsed: missed model={[m['under'], m['over'], m['inner']]} impl={p['missed']}")
         if m["dtype"] != p["dtype"] or m["keep"] != p["keep_missed"] or m["adaptive"] != p["adaptive"]:
             d.append("parsed: dtype / keep_missed / adaptive")
+        return d[:6]
+
+    def diff_nd(self, case, model_ok, o):
+        doc = model_ok[1]["ret"]
+        impl = o["dict"]
+        d = []
+        if impl.get("histogram_type") != doc["histogram_type"]:
+            d.append(f"document: histogram_type model={doc['histogram_type']} impl={impl.get('histogram_type')}")
+        ibs = impl.get("binnings") or []
+        if len(ibs) != len(doc["binnings"]):
+            d.append("document: number of binnings")
+        for a, (ib, mb) in enumerate(zip(ibs, doc["binnings"])):
+            if mb["t"] == "fixed":
+                got = {"adaptive": ib.get("adaptive"), "count": ib.get("bin_count"), "w": rs(ib.get("bin_width")), "shift": rs(ib.get("bin_shift")),
+                       "tmin": ib.get("bin_times_min") if ib.get("bin_times_min") is not None else 0}
+                exp = {k: mb[k] for k in ("adaptive", "count", "w", "shift", "tmin")}
+                if got != exp:
+                    d.append(f"document: binning of axis {a} model={exp} impl={got}")
+            else:
+                if "bins" in ib:
+                    got = [[rs(l), rs(r)] for l, r in ib["bins"]]
+                elif "numpy_bins" in ib:
+                    e = ib["numpy_bins"]
+                    got = [[rs(e[i]), rs(e[i + 1])] for i in range(len(e) - 1)]
+                else:
+                    got = None
+                if got != mb["bins"]:
+                    d.append(f"document: bins of axis {a}")
+
+        def flat(x):
+            return [y for row in x for y in flat(row)] if isinstance(x, list) else [x]
+
+        def shape(x):
+            return [len(x)] + shape(x[0]) if isinstance(x, list) and x else ([0] if isinstance(x, list) else [])
+
+        for mk, ik in (("freq", "frequencies"), ("err2", "errors2")):
+            if impl.get(ik) is None:
+                d.append(f"document: {ik} is not written")
+                continue
+            if 0 not in doc["shape"] and shape(impl[ik]) != doc["shape"]:
+                d.append(f"document: shape of {ik} model={doc['shape']} impl={shape(impl[ik])}")
+            if [Fraction(x) for x in doc[mk]] != [Fraction(x) if isinstance(x, int) else Fraction(float(x)) for x in flat(impl[ik])]:
+                d.append(f"document: {ik} model={doc[mk]} impl={impl[ik]}")
+        if doc["dtype"] != impl.get("dtype"):
+            d.append(f"document: dtype model={doc['dtype']} impl={impl.get('dtype')}")
+        if doc["missed_keep"] != impl.get("missed_keep"):
+            d.append("document: missed_keep")
+        if case["init"].get("keep", True):
+            im = [nrs(x) for x in impl.get("missed", [])]
+            if [None if x is None else Fraction(x) for x in doc["missed"]] != [None if x is None else Fraction(x) for x in im]:
+                d.append(f"document: missed model={doc['missed']} impl={im}")
+        names = (impl.get("meta_data") or {}).get("axis_names")
+        if names is not None and [str(n) for n in names] != doc["axis_names"]:
+            d.append(f"document: axis_names model={doc['axis_names']} impl={names}")
+        # the object read back
+        m = model_ok[1]["regs"][1]
+        p = o["parsed"]
+        if m["bins"] != p["bins"]:
+            d.append("parsed: bins")
+        if m["shape"] != p["shape"] and 0 not in m["shape"]:
+            d.append(f"parsed: shape model={m['shape']} impl={p['shape']}")
+        for f in ("freq", "err2"):
+            if [Fraction(x) for x in m[f]] != [Fraction(x) for x in p[f]]:
+                d.append(f"parsed: {f} model={m[f]} impl={p[f]}")
+        pm = p["missed"][0]
+        if (None if m["missed"] is None else Fraction(m["missed"])) != (None if pm is None else Fraction(pm)):
+            d.append(f"parsed: missed model={m['missed']} impl={pm}")
+        if m["dtype"] != p["dtype"] or m["keep"] != p["keep_missed"] or m["adaptive"] != p["adaptive"]:
+            d.append(f"parsed: dtype / keep_missed / adaptive model={m['dtype'], m['keep'], m['adaptive']} impl={p['dtype'], p['keep_missed'], p['adaptive']}")
+        if m["names"] != [str(n) for n in p["axis_names"]]:
+            d.append(f"parsed: axis names model={m['names']} impl={p['axis_names']}")
         return d[:6]
 
     # ------------------------------------------------------------------ oracle
